@@ -13,6 +13,7 @@ import PqlModel.Props.C01WriteExprIR
 import PqlModel.Props.C01WriteExprIRCases
 import PqlModel.Props.C01WriteExprIRAll
 import PqlModel.Props.C07ExprIR
+import PqlModel.Props.IRHeadlinesA
 #print axioms Pql.C01.C01_parens_write
 #print axioms Pql.C01.C01_parens_wrap
 #print axioms Pql.C01.C01_unparen_write
@@ -78,3 +79,10 @@ import PqlModel.Props.C07ExprIR
 #print axioms Pql.ExprIR.C01_writeExpression_ir_nonjoin
 #print axioms Pql.ExprIR.C01_writeExpression_ir_needs_good
 #print axioms Pql.ExprIR.C01_writeExpression_ir_nonvacuous
+#print axioms Pql.IRHead.C01_lexRender_ir
+#print axioms Pql.IRHead.C01_parse_roundtrip_ir
+#print axioms Pql.IRHead.C01_parse_roundtrip_anyfuel_ir
+#print axioms Pql.IRHead.C01_operand_is_unit_ir
+#print axioms Pql.IRHead.C01_unparen_ir
+#print axioms Pql.IRHead.C01_on_translated_code
+#print axioms Pql.IRHead.C01_on_translated_code_nonvacuous
